@@ -20,10 +20,15 @@ ArrIA = z3.ArraySort(I, ArrII)
 _counter = itertools.count()
 
 
+CREATED = []  # every constant made by fresh(), in creation order (see builtins._generalise)
+
+
 def fresh(prefix: str, sort=None):
     n = next(_counter)
     sort = I if sort is None else sort
-    return z3.Const(f"{prefix}!{n}", sort)
+    c = z3.Const(f"{prefix}!{n}", sort)
+    CREATED.append(c)
+    return c
 
 
 class Ty:
